@@ -11,36 +11,39 @@ import (
 
 // GenOpts are the knobs of the program generator.
 type GenOpts struct {
-	Files        int  // number of files (1..5)
-	Structs      int  // struct-likes per file (approx.)
-	Services     bool // generate services
-	Consts       bool // generate constants
-	Defaults     bool // generate field defaults
-	Annotations  int  // 0 none, 1 some, 2 everywhere (incl. types, namespaces, args, throws)
-	NameStress   int  // 0 plain names, 1 naming-style stress, 2 collision pools
-	TypeAnn      bool // annotations and cpp_type on type expressions
-	OddIDs       bool // negative / implicit / sparse field ids
-	HexIDs       bool // hex/octal spelled field ids
-	ExpDoubles   bool // doubles with exponents
-	StructKeys   bool // struct-typed map keys
-	Recursion    bool // recursive types through optional fields / containers
-	MaxDepth     int  // container nesting (default 3)
-	FieldsMax    int  // max fields per struct (default 10)
-	Unions       bool
-	Exceptions   bool
-	CppIncludes  bool
-	SameBase     bool // two files with the same base name in different directories
-	ExtraNS      bool // namespaces for other languages / '*'
-	NoGoNS       bool // some files without a go namespace
-	OnlyWireable bool // restrict to shapes the value generator and codecs handle (always true today)
-	HardLiterals bool // string literals with both quotes, backslashes, '&', '<', '#', unicode
-	GoEscapes    bool // restrict backslash sequences in literals to escapes Go accepts (C06)
-	StructConsts bool // constants / defaults of struct type
-	EmptyDefs    bool // empty structs / services / enums
-	UnusedIncl   bool // includes nothing refers to
-	BigFieldIDs  bool // ids > 63 and up to 32767
-	Preserve     bool // some struct-likes carry @preserve
-	UnionDefault bool // at most one default in a union
+	Files          int  // number of files (1..5)
+	Structs        int  // struct-likes per file (approx.)
+	Services       bool // generate services
+	Consts         bool // generate constants
+	Defaults       bool // generate field defaults
+	Annotations    int  // 0 none, 1 some, 2 everywhere (incl. types, namespaces, args, throws)
+	NameStress     int  // 0 plain names, 1 naming-style stress, 2 collision pools
+	TypeAnn        bool // annotations and cpp_type on type expressions
+	OddIDs         bool // negative / implicit / sparse field ids
+	HexIDs         bool // hex/octal spelled field ids
+	ExpDoubles     bool // doubles with exponents
+	StructKeys     bool // struct-typed map keys
+	Recursion      bool // recursive types through optional fields / containers
+	MaxDepth       int  // container nesting (default 3)
+	FieldsMax      int  // max fields per struct (default 10)
+	Unions         bool
+	Exceptions     bool
+	CppIncludes    bool
+	SameBase       bool // two files with the same base name in different directories
+	ExtraNS        bool // namespaces for other languages / '*'
+	NoGoNS         bool // some files without a go namespace
+	OnlyWireable   bool // restrict to shapes the value generator and codecs handle (always true today)
+	HardLiterals   bool // string literals with both quotes, backslashes, '&', '<', '#', unicode
+	GoEscapes      bool // restrict backslash sequences in literals to escapes Go accepts (C06)
+	StructConsts   bool // constants / defaults of struct type
+	EmptyDefs      bool // empty structs / services / enums
+	UnusedIncl     bool // includes nothing refers to
+	BigFieldIDs    bool // ids > 63 and up to 32767
+	Preserve       bool // some struct-likes carry @preserve
+	UnionDefault   bool // at most one default in a union
+	TypedefChains  bool // extra typedef-of-typedef chains (crossing files)
+	PrefixNames    bool // definitions whose name equals an include prefix
+	TypedefEnumSel bool // enum values selected through a typedef (Typedef.VALUE): accepted by the analyser, rejected by the Go backend
 }
 
 // DefaultOpts is a broad configuration valid for the Go backend.
@@ -596,7 +599,7 @@ func (g *gen) genValue(f *File, t *Type, depth int, exclude *Def) *Value {
 		sel := e.Name
 		selFile := e.File
 		var via *Def
-		if t.Ref != nil && t.Ref.Kind == KTypedef && g.rng.Bool() {
+		if g.o.TypedefEnumSel && t.Ref != nil && t.Ref.Kind == KTypedef && g.rng.Bool() {
 			via = t.Ref
 			sel = via.Name
 			selFile = via.File
@@ -869,6 +872,52 @@ func Generate(rng *vlib.Rng, o GenOpts) *Program {
 			f.Defs = append(f.Defs, g.genStructLike(f, kind))
 		}
 		f.Defs = append(f.Defs, g.genTypedef(f))
+		if o.TypedefChains {
+			for k := rng.Range(1, 4); k > 0; k-- {
+				if td := g.pickDef(f, func(d *Def) bool { return d.Kind == KTypedef }); td != nil {
+					d := &Def{Kind: KTypedef, File: f, Type: g.refTo(f, td)}
+					d.Name = g.globalName(f, []string{"Chain", "Link", "Hop", "Via"}, nil, nil)
+					f.Defs = append(f.Defs, d)
+				}
+			}
+		}
+		if o.TypedefEnumSel {
+			// typedefs of (typedefs of) enums, preferably foreign ones, used as selectors of enum values
+			for k := rng.Range(1, 3); k > 0; k-- {
+				target := g.pickDef(f, func(d *Def) bool {
+					if d.Kind == KEnum {
+						return len(d.EnumVals) > 0
+					}
+					if d.Kind == KTypedef {
+						r := d.Type.Resolve()
+						return r.Ref != nil && r.Ref.Kind == KEnum && len(r.Ref.EnumVals) > 0
+					}
+					return false
+				})
+				if target == nil {
+					continue
+				}
+				td := &Def{Kind: KTypedef, File: f, Type: g.refTo(f, target)}
+				td.Name = g.globalName(f, []string{"ESel", "EnumAlias", "Kind2", "Sel"}, nil, nil)
+				f.Defs = append(f.Defs, td)
+				e := td.Type.Resolve().Ref
+				ev := e.EnumVals[rng.Intn(len(e.EnumVals))]
+				c := &Def{Kind: KConst, File: f, Type: g.refTo(f, td)}
+				c.Value = &Value{Kind: VIdent, Ident: td.Name + "." + ev.Name, ToEnum: e, ToEnumVal: ev, ViaType: td}
+				c.Name = g.globalName(f, []string{"SEL_A", "SEL_B", "picked", "chosen"}, nil, nil)
+				f.Defs = append(f.Defs, c)
+			}
+		}
+		if o.PrefixNames && len(f.Includes) > 0 && rng.Chance(1, 3) {
+			pn := f.Includes[rng.Intn(len(f.Includes))].File.Prefix()
+			if !g.used[f][pn] {
+				g.used[f][pn] = true
+				d := g.genStructLike(f, KStruct)
+				delete(g.used[f], d.Name)
+				d.Name = pn
+				f.Defs = append(f.Defs, d)
+			}
+		}
 		if o.Consts {
 			for k := rng.Range(2, 6); k > 0; k-- {
 				f.Defs = append(f.Defs, g.genConst(f))
